@@ -34,7 +34,7 @@ def case(draw, tier):
             pos, kw = [], []
             for _ in range(draw(st.integers(0, 2))):
                 pos.append(draw(_arg(nmodes)))
-            for key in draw(st.lists(st.sampled_from(["a", "phi", "select"]), max_size=2, unique=True)):
+            for key in draw(st.lists(st.sampled_from(["a", "phi", "select", "modes", "args", "kwargs", "op"]), max_size=2, unique=True)):
                 kw.append([key, draw(_arg(nmodes))])
             args = A.Args(pos, kw, False)
         items.append(A.Stmt(op, args, modes, "[", "]"))
